@@ -2788,6 +2788,16 @@ func (a *Agent) cleanupRelaysForPeer(peerID identity.AgentID) {
 			logging.KeyPeerID, peerID.ShortString(),
 			logging.KeyCount, cleaned)
 	}
+	if cleaned := a.udpRelay.DeleteByPeer(peerID); cleaned > 0 {
+		a.logger.Debug("cleaned up UDP relay associations",
+			logging.KeyPeerID, peerID.ShortString(),
+			logging.KeyCount, cleaned)
+	}
+	if cleaned := a.icmpRelay.DeleteByPeer(peerID); cleaned > 0 {
+		a.logger.Debug("cleaned up ICMP relay sessions",
+			logging.KeyPeerID, peerID.ShortString(),
+			logging.KeyCount, cleaned)
+	}
 }
 
 // Dial implements socks5.Dialer for SOCKS5 connections.
